@@ -24,7 +24,7 @@ WideN   == -2            \* a number wider than 8 bytes
 HugeGas == 1073741824
 
 \* switches that re-introduce the pinned tree's defects (self-test / non-vacuity only)
-BugOn(b) == "bugs" \in DOMAIN cfg /\ \E i \in DOMAIN cfg.bugs : cfg.bugs[i] = b
+BugOn(b) == "bugs" \in DOMAIN cfg /\ b \in cfg.bugs
 
 ---------------------------------------------------------------------------
 \* bytes as hex strings
